@@ -1,15 +1,22 @@
-(* Hex strings -> bytes.  The harness ships byte strings to Coq as string literals ("42007801...") because
-   they parse much faster than lists of numerals; this file turns them into the `bytes` of Base.Bytes. *)
-From Coq Require Import String Ascii.
+(* Packed byte strings -> bytes.  The harness ships byte strings to Coq as lists of primitive 63-bit integers,
+   seven bytes per integer under a sentinel bit (value = 2^(8k) + the k <= 7 bytes read big-endian), because a
+   literal of that kind parses an order of magnitude faster than a list of Z numerals or a string literal.
+   This file turns them into the `bytes` of Base.Bytes.  Used only by the comparator (SessionCases.v), never by
+   a theorem. *)
+From Coq Require Import Uint63.
 From PK Require Export Base.Bytes.
 Open Scope Z_scope.
 
-Definition hexval (c : ascii) : Z :=
-  let n := Z.of_N (N_of_ascii c) in
-  if n <? 58 then n - 48 else if n <? 71 then n - 55 else n - 87.
+Definition packed := list int.
 
-Fixpoint hx (s : string) : bytes :=
-  match s with
-  | String a (String b r) => (16 * hexval a + hexval b) :: hx r
-  | _ => []
+Definition bit_z (v k : int) (w : Z) : Z :=
+  if Uint63.is_zero (Uint63.land (Uint63.lsr v k) 1%uint63) then 0 else w.
+Definition byte_z (v : int) : Z :=
+  bit_z v 0%uint63 1 + bit_z v 1%uint63 2 + bit_z v 2%uint63 4 + bit_z v 3%uint63 8
+  + bit_z v 4%uint63 16 + bit_z v 5%uint63 32 + bit_z v 6%uint63 64 + bit_z v 7%uint63 128.
+Fixpoint unpack (fuel : nat) (v : int) (acc : bytes) : bytes :=
+  match fuel with
+  | O => acc
+  | S f => if Uint63.leb v 1%uint63 then acc else unpack f (Uint63.lsr v 8%uint63) (byte_z v :: acc)
   end.
+Definition hx (l : packed) : bytes := flat_map (fun i => unpack 8 i []) l.
